@@ -18,7 +18,7 @@ func init() {
 	})
 	register(&Rule{
 		ID:    "C17.multiorient",
-		Props: []string{"C17"},
+		Props: []string{"C17", "C14"},
 		Doc:   "MultiPolygon.forceOrientation interpreted on 1..2 members over every combination of (forceCW, member IsCW, member IsCCW): each stored member is Polygon.forceOrientation(member, forceCW), or the member itself only when it is already oriented as requested (IsCW for forceCW, IsCCW otherwise) — 'not clockwise' does not imply counter-clockwise (a shell and a hole wound the same way are neither)",
 		Floor: 1,
 		Run:   runC17MultiOrient,
